@@ -453,6 +453,56 @@ def rule_R5(ctx, prj):
                  f"lengths 16, 31, 61 give -1 % easy)")
 
 
+def rule_R6(ctx, prj):
+    """the summary's input: the profile of the measurements the report holds at the moment it is asked"""
+    from ..report_eval import ReportLab
+    ctx.rule("R6", "the summary describes the report as it is: Report.quality_profile() evaluated on a code base built through the repo's "
+                   "constructors gives, per category, the sum of the lengths of the functions the code base holds at that moment - asked "
+                   "once, again after a file's entry was replaced under the same path (the file was measured again), again after a file "
+                   "was added, and through a second Report object on the same code base", floor=0)
+    rfi = prj.func("codelimit.common.report.Report:Report.quality_profile")
+
+    def cat(v):
+        return 0 if v <= 15 else 1 if v <= 30 else 2 if v <= 60 else 3
+
+    def want(files):
+        p = [0, 0, 0, 0]
+        for vals in files.values():
+            for v in vals:
+                p[cat(v)] += v
+        return p
+    try:
+        lab = ReportLab(prj)
+        cb = lab.new(lab.Codebase, "/root")
+        files = {}
+
+        def put(path, vals):
+            ms = [lab.new(lab.Measurement, f"f{i}", lab.new(lab.Location, 1, 1), lab.new(lab.Location, 2, 1), v) for i, v in enumerate(vals)]
+            lab.call(cb, "add_file", lab.new(lab.Entry, path, f"sum{len(files)}{sum(vals)}", "Python", sum(vals), ms))
+            files[path] = list(vals)
+        put("a.py", [10, 12])
+        put("pkg/b.py", [20])
+        rep = lab.new(lab.Report, cb)
+        steps = []
+        steps.append(("a report of two files with short functions", list(lab.call(rep, "quality_profile")), want(files)))
+        put("a.py", [10, 100])
+        steps.append(("the same report after a.py was measured again and its entry replaced (now a 100-line function)", list(lab.call(rep, "quality_profile")), want(files)))
+        put("pkg/c.py", [45])
+        steps.append(("the same report after pkg/c.py was added", list(lab.call(rep, "quality_profile")), want(files)))
+        put("pkg/c.py", [16])
+        rep2 = lab.new(lab.Report, cb)
+        steps.append(("a second Report object on the same code base after pkg/c.py was replaced", list(lab.call(rep2, "quality_profile")), want(files)))
+    except (Unknown, PyRaise, AnalysisError, TypeError) as e:
+        ctx.info(f"R6: Report.quality_profile not evaluable ({type(e).__name__}: {e}); not judged")
+        return
+    for what, got, w in steps:
+        if got != w:
+            ctx.viol("R6", "quality_profile/stale", rfi.site(), f"{what}: quality_profile() gives {got}; the functions it holds give {w}: the summary (percentages and verdict) "
+                     f"describes measurements the report no longer contains")
+            return
+    ctx.ok("R6", rfi.site(), f"quality_profile() follows the code base through {len(steps)} steps (entry replaced, file added, second report)")
+
+
 def run(ctx, prj: Project):
     ctx.explanation = (
         "Decided: the sum-to-100 identity as a linear normal form over the three rounded terms together with the triples "
@@ -468,3 +518,4 @@ def run(ctx, prj: Project):
     rule_R3(ctx, prj)
     rule_R4(ctx, prj)
     rule_R5(ctx, prj)
+    rule_R6(ctx, prj)
